@@ -4,13 +4,14 @@ use super::{catch, panic_signature, PropDef};
 use crate::asmref::{self, Line, Opnd};
 use crate::engine::*;
 use crate::isa;
+use proptest::prelude::*;
 use serde_json::{json, Value};
 
 pub fn def() -> PropDef {
     PropDef {
         info: PropInfo {
             id: "C13",
-            rule: "texts of 1-8 lines; each line = a mnemonic from the documented table (every mnemonic incl. 32/64 and b/h/w/dw suffixes) with operands of the right shape (90%), any operand list incl. too many (5%) or a bogus mnemonic (5%); registers 0-15 and 16+, offsets in/around [-32768,32767], immediates in/around [-2^31,2^31-1], all 64-bit values for lddw; numbers spelled decimal or hex, optional '+', upper/lower case, leading zeros; varied blanks, tabs, CRLF, several instructions per line, leading whitespace; about one line in six repeats an earlier line (usually the one just before it). Oracle: table-driven reference assembler over the abstract syntax (independent encoder): Ok(bytes) must match exactly, Err must be Err. Non-trivial = text with >= 2 instructions or a negative / hex / boundary operand; distinct by hash of the text.",
+            rule: "texts of 1-8 lines; each line = a mnemonic from the documented table (every mnemonic incl. 32/64 and b/h/w/dw suffixes) with operands of the right shape (90%), any operand list incl. too many (5%) or a bogus mnemonic (5%); registers 0-15 and 16+, offsets in/around [-32768,32767], immediates in/around [-2^31,2^31-1], all 64-bit values for lddw; numbers spelled decimal or hex, optional '+', upper/lower case, leading zeros; varied blanks, tabs, CRLF, line breaks after the mnemonic and after commas, several instructions per line, leading whitespace; long sources of 200-4000 instructions (up to ~60 KiB) made by cycling over 1-8 generated lines; about one line in six repeats an earlier line (usually the one just before it). Oracle: table-driven reference assembler over the abstract syntax (independent encoder): Ok(bytes) must match exactly, Err must be Err. Non-trivial = text with >= 2 instructions or a negative / hex / boundary operand; distinct by hash of the text.",
             assumptions: &["reference assembler harness/vrun/src/asmref.rs states the documented syntax correctly", "hexadecimal literals >= 2^63 are only used for lddw (DESIGN 6.3)"],
         },
         run,
@@ -82,6 +83,29 @@ fn run(ctx: &Ctx) {
             st.sample(5, || json!({"text": text, "expected": match &want { Ok(b) => isa::hex(b), Err(()) => "Err".into() }}));
         }
         (v, if want_case { json!({"text": text, "expected": match &want { Ok(b) => Value::String(isa::hex(b)), Err(()) => Value::Null }}) } else { Value::Null })
+    });
+    // long sources: 200-4000 instructions (3-60 KiB of text) made by cycling over 1-8 generated lines
+    ctx.shrink_iters.set(300);
+    let cases = ctx.share(ctx.tier.pick(3_200, 96_000));
+    ctx.search("long-texts", "long", cases, (asmref::program(8), prop_oneof![1 => 200usize..1000, 2 => 1000usize..4000]), |(lines, n), want_case| {
+        let all: Vec<asmref::Line> = lines.iter().cycle().take(*n).cloned().collect();
+        let text = asmref::render(&all);
+        let want = asmref::ref_assemble(&map, &all);
+        let v = match check_text(&text, &want) {
+            Verdict::Fail { signature, detail } => {
+                let cut = (0..=400).rev().find(|k| detail.is_char_boundary(*k)).unwrap_or(0);
+                Verdict::Fail { signature: format!("long-text:{signature}"), detail: format!("{} instructions, {} bytes of text made by cycling over {:?}: {}...", n, text.len(), asmref::render(lines), &detail[..cut.min(detail.len())]) }
+            }
+            other => other,
+        };
+        if !want_case {
+            let mut st = ctx.stats();
+            st.eval();
+            st.class(if want.is_ok() { "long-text:expect:ok" } else { "long-text:expect:err" });
+            st.class(match text.len() { 0..=8191 => "long-text:<8KiB", 8192..=24575 => "long-text:8-24KiB", 24576..=49151 => "long-text:24-48KiB", _ => "long-text:>=48KiB" });
+            st.nontrivial(fnv_str(&text));
+        }
+        (v, if want_case { json!({"cycle": asmref::render(lines), "lines": lines.len(), "n": n, "text": text, "expected": match &want { Ok(b) => Value::String(isa::hex(b)), Err(()) => Value::Null }}) } else { Value::Null })
     });
 }
 
